@@ -395,11 +395,85 @@ impl WordMatch {
     }
 }
 // @item rust/core/src/tokenization/text.rs :: struct Text
+pub struct TextRef<'a> {
+    pub words: &'a [WordShape],
+    pub source: &'a [char],
+    pub chars: &'a [char],
+    pub classes: &'a [CharClass],
+}
+// @item rust/core/src/tokenization/text.rs :: struct Text
 pub struct TextOwn {
     pub words: Vec<WordShape>,
     pub source: Vec<char>,
     pub chars: Vec<char>,
     pub classes: Vec<CharClass>,
+}
+// @item rust/core/src/tokenization/word_shape.rs :: impl Word for WordShape
+impl WordShape {
+    fn offset(&self) -> (ret: usize)
+    {
+        self.offset
+    }
+    fn slice(&self) -> (ret: (usize, usize))
+    {
+        self.slice
+    }
+    fn stem(&self) -> (ret: usize)
+    {
+        self.stem
+    }
+    fn pos(&self) -> (ret: Option<PartOfSpeech>)
+    {
+        self.pos
+    }
+    fn fin(&self) -> (ret: bool)
+    {
+        self.fin
+    }
+}
+// @item rust/core/src/tokenization/word.rs :: defaults Word as WordShape::{len}
+impl WordShape {
+    fn len(&self) -> (ret: usize)
+    {
+        let (left, right) = self.slice();
+        right - left
+    }
+}
+// @item rust/core/src/tokenization/text.rs :: impl TextOwn::{to_ref}
+impl TextOwn {
+    pub fn to_ref<'a>(&'a self) -> (ret: TextRef<'a>)
+    {
+        TextRef { words: &self.words, source: &self.source, chars: &self.chars, classes: &self.classes }
+    }
+}
+// @item rust/core/src/utils/trigrams.rs :: struct TrigramIter
+pub struct TrigramIter<'a> {
+    pub word: &'a [char],
+    pub size: usize,
+}
+// @item rust/core/src/utils/trigrams.rs :: impl TrigramIter::{new}
+impl<'a> TrigramIter<'a> {
+    pub fn new(word: &'a [char]) -> (ret: Self)
+    {
+        Self { word, size: 1 }
+    }
+}
+// @item rust/core/src/utils/trigrams.rs :: impl Iterator for TrigramIter::{next}
+impl<'a> TrigramIter<'a> {
+    fn next(&mut self) -> (ret: Option<[char; 3]>)
+    {
+        if self.word.len() < self.size {
+            return None;
+        }
+        let mut gram = ['\0', '\0', '\0'];
+        gram[..self.size].copy_from_slice(&self.word[..self.size]);
+        if self.size < 3 {
+            self.size += 1;
+        } else {
+            self.word = &self.word[1..];
+        }
+        Some(gram)
+    }
 }
 // @item rust/core/src/store/record.rs :: struct Record
 pub struct Record {
@@ -408,15 +482,13 @@ pub struct Record {
     pub title: TextOwn,
     pub rating: usize,
 }
-// @item rust/core/src/store/mod.rs :: static DEFAULT_LIMIT
-pub const DEFAULT_LIMIT: usize = 10;
 // @item rust/core/src/store/trigram_index.rs :: struct TrigramIndex
 pub struct TrigramIndex {
     pub len: usize,
     pub dict: HashMap<[char; 3], Vec<usize>>,
     pub counts: Vec<usize>,
 }
-// @item rust/core/src/store/trigram_index.rs :: impl TrigramIndex::{new,add}
+// @item rust/core/src/store/trigram_index.rs :: impl TrigramIndex::{new,add,prepare,collect_grams}
 impl TrigramIndex {
     pub fn new() -> (ret: Self)
     {
@@ -428,17 +500,83 @@ impl TrigramIndex {
         let Record { ix, title, .. } = record;
         let grams = Self::collect_grams(&title.to_ref());
         *len += 1;
-        for &gram in grams.iter()
+        let __end0 = grams.len();
+        for __i0 in 0..__end0
         {
-            dict.entry(gram)
-                .and_modify(|ixs| {
+            let gram = grams[__i0];
+            if dict.contains_key(&gram) {
+                let ixs = dict.get_mut(&gram).unwrap();
+                {
                     vassert(ixs.len() == 0 || ixs.last().unwrap() < ix);
                     ixs.push(*ix);
-                })
-                .or_insert_with(|| vec![*ix]);
+                }
+            } else {
+                dict.insert(gram, vec![*ix]);
+            }
         }
     }
+    pub fn prepare(&mut self, query: &TextRef, size: usize) -> (ret: Vec<usize>)
+    {
+        let Self { counts, dict, .. } = self;
+        if query.words.len() == 0 {
+            return Vec::new();
+        }
+        counts.clear();
+        counts.resize(self.len, 0);
+        let grams = Self::collect_grams(&query);
+        let __end0 = grams.len();
+        for __i0 in 0..__end0
+        {
+            let gram = &grams[__i0];
+            if let Some(ixs) = dict.get(gram) {
+                let __end1 = ixs.len();
+                for __i1 in 0..__end1
+                {
+                    let ix = ixs[__i1];
+                    unsafe {
+                        *counts.get_unchecked_mut(ix) += 1;
+                    }
+                }
+            }
+        }
+        prepare_tail(counts, size)
+    }
+    fn collect_grams(text: &TextRef) -> (ret: Vec<[char; 3]>)
+    {
+        let mut __sum0: usize = 0;
+        let __end0 = text.words.len();
+        for __i0 in 0..__end0
+        {
+            let w = &text.words[__i0];
+            __sum0 += w.len();
+        }
+        let cap = __sum0;
+        let mut grams = Vec::with_capacity(cap);
+        let __end1 = text.words.len();
+        for __i1 in 0..__end1
+        {
+            let word = &text.words[__i1];
+            let chars = &text.chars[word.slice.0..word.slice.1];
+            let mut __it2 = TrigramIter::new(chars);
+            loop
+            {
+                match __it2.next() {
+                    Some(gram) => {
+                        grams.push(gram);
+                    }
+                    None => {
+                        break;
+                    }
+                }
+            }
+        }
+        grams.sort_unstable();
+        grams.dedup();
+        grams
+    }
 }
+// @item rust/core/src/store/mod.rs :: static DEFAULT_LIMIT
+pub const DEFAULT_LIMIT: usize = 10;
 // @item rust/core/src/store/store.rs :: struct Store
 pub struct Store {
     pub next_ix: usize,
@@ -447,7 +585,7 @@ pub struct Store {
     pub lang: Lang,
     pub dividers: (Vec<char>, Vec<char>),
     pub index: TrigramIndex,
-    pub top_ixs: Option<Vec<usize>>,
+    pub top_ixs: Option<(usize, Vec<usize>)>,
 }
 // @item rust/core/src/store/store.rs :: impl Store
 impl Store {
@@ -457,17 +595,20 @@ impl Store {
     }
     pub fn add(&mut self, mut record: Record)
     {
-        let Self { next_ix, index, records, .. } = self;
+        let Self { next_ix, index, records, top_ixs, .. } = self;
         vassert(*next_ix == records.len());
         record.ix = *next_ix;
         index.add(&record);
         records.push(record);
         *next_ix += 1;
+        *top_ixs = None;
     }
     pub fn clear(&mut self)
     {
         self.records.clear();
         self.next_ix = 0;
+        self.index = TrigramIndex::new();
+        self.top_ixs = None;
     }
     pub fn highlight_with(&mut self, dividers: (&str, &str))
     {
@@ -485,11 +626,13 @@ impl Store {
     fn top_ixs(&mut self) -> (ret: Vec<usize>)
     {
         let top_ixs = &mut self.top_ixs;
-        if let Some(ixs) = top_ixs {
-            return ixs.clone();
+        if let Some((limit, ixs)) = top_ixs {
+            if *limit == self.limit {
+                return ixs.clone();
+            }
         }
         let ixs = top_ixs_tail(&self.records, self.limit);
-        *top_ixs = Some(ixs.clone());
+        *top_ixs = Some((self.limit, ixs.clone()));
         ixs
     }
 }
